@@ -27,7 +27,7 @@ RULE = ('one case = one history: a construction (constructor / from_sequence / C
         '(indices and positions in every accepted spelling: int, bool, numpy integer types, objects with __index__), '
         'reverse, clear, continue-on-find-result, continue-on-get_nodes-result; in 35 % of the histories a POOL of up to three sequences is alive (clone = ContentSequence(member, own flags), attach = item.ContentSequence = member), operations go to any member and EVERY member is observed after every step; items share a 4-name alphabet (equal '
         'names may differ in code meaning; two further names are an SRT / SCT alias pair, == but with different hashes; two more are the code of name 0 with scheme versions 1.0 / 2.0 - different names with the same value and designator; every fifth item gets its name as a plain pydicom Code), carry or lack a relationship type, and have a unique ObservationUID unless '
-        'deliberately duplicated (same object or equal copy); after every step list, find(n) for all names, index/in '
+        'deliberately duplicated (same object or equal copy); after every step list, find(n) for all names (each spelled as CodedConcept and as pydicom Code), index/in '
         'for all items made so far and get_nodes are observed.  Non-trivial = history with >= 2 accepted mutations and '
         'two items sharing a name present at some point; distinct by (kind, op-kind sequence, accept pattern)')
 ASSUMPTIONS = [
@@ -238,6 +238,19 @@ def _name(n, m=0):
     return CodedConcept(value=str(1000 + n), scheme_designator='99HDV', meaning=f'name {n}' + (' (alt)' if m else ''))
 
 
+def _name_code(n, m=0):
+    """The same name spelled as a plain pydicom Code (the other documented argument type of `find`)."""
+    from pydicom.sr.coding import Code
+    nm = _name(n, m)
+    return Code(nm.value, nm.scheme_designator, nm.meaning, nm.scheme_version)
+
+
+def _spelt_alike(a, b):
+    """Two concept names written with the same designator, value and version (no hash, no library equality involved)."""
+    return (str(a.value), str(a.scheme_designator), a.scheme_version or None) == \
+        (str(b.value), str(b.scheme_designator), b.scheme_version or None)
+
+
 def _uid_of(item):
     return int(str(item.ObservationUID).rsplit('.', 1)[1])
 
@@ -316,15 +329,17 @@ def _observe(seq, objs, probes):
     """Everything the property talks about, read off the real sequence; items are reported by OBJECT tag."""
     lst = list(seq)
     obs = {'list': objs.tags(lst), 'uids': [_uid_of(i) for i in lst], 'find': [], 'find_uids': [], 'index': [], 'in': [],
-           'nodes': None, 'nodes_uids': None}
+           'nodes': None, 'nodes_uids': None, 'find_code': [], 'find_code_uids': []}
     for n in range(ALL_NAMES):
-        try:
-            found = list(seq.find(_name(n)))
-            obs['find'].append(objs.tags(found))
-            obs['find_uids'].append([_uid_of(i) for i in found])
-        except Exception as e:  # noqa: BLE001
-            obs['find'].append('err:' + _kind_of(e))
-            obs['find_uids'].append('err:' + _kind_of(e))
+        # every name is looked up in both documented spellings of the argument: CodedConcept and pydicom Code
+        for key, nm in (('find', _name(n)), ('find_code', _name_code(n, n % 2))):
+            try:
+                found = list(seq.find(nm))
+                obs[key].append(objs.tags(found))
+                obs[key + '_uids'].append([_uid_of(i) for i in found])
+            except Exception as e:  # noqa: BLE001
+                obs[key].append('err:' + _kind_of(e))
+                obs[key + '_uids'].append('err:' + _kind_of(e))
     for t in probes:
         x = objs.by_tag[t]
         try:
@@ -367,33 +382,38 @@ def _oracle(ctx, case, step, seq, kind, objs, probes, obs):
     lst = list(seq)
     luids = [_uid_of(i) for i in lst]
     where = {'case': case, 'step': step}
-    # find: exactly the current items with that name, once each (multiset; the property does not fix the order)
-    for n in range(ALL_NAMES):
-        nm = _name(n)
+    # find: exactly the current items with that name, once each (multiset; the property does not fix the order), for the
+    # name spelled as CodedConcept and as pydicom Code
+    for n, spelling in [(n, sp) for n in range(ALL_NAMES) for sp in ('find', 'find_code')]:
+        nm = _name(n) if spelling == 'find' else _name_code(n, n % 2)
+        how = '' if spelling == 'find' else ' spelled as pydicom Code'
         want = sorted(_uid_of(i) for i in lst if i.name == nm)
-        got = obs['find_uids'][n]
+        got = obs[spelling + '_uids'][n]
         if isinstance(got, str):
-            ctx.fail(where, f'find(name {n}) raised {got}; list={luids}', site='find')
+            ctx.fail(where, f'find(name {n}{how}) raised {got}; list={luids}', site='find')
         elif sorted(got) != want:
             # the open finding C14-alias-names-split-index explains EXACTLY this answer and no other: every item whose
-            # name is == the query AND hashes like it, none of the items whose name is == but hashes differently (the
-            # SRT / SCT alias filed under the other key).  Any other wrong answer — also for an alias name — is a
-            # different violation and is reported in full.
-            same_key = sorted(_uid_of(i) for i in lst if i.name == nm and hash(i.name) == hash(nm))
-            alias_only = n in ALIAS and sorted(got) == same_key and same_key != want
+            # name is WRITTEN like the query (same designator, value, version), none of the items whose name is == the
+            # query but written in the other scheme (the SRT / SCT alias, filed under another hash), and at least one
+            # such item is in the list.  Any other wrong answer -- also for an alias name, e.g. missing an item whose
+            # name is written exactly like the query -- is a different violation and is reported in full.
+            alike = sorted(_uid_of(i) for i in lst if _spelt_alike(i.name, nm))
+            missed = [_uid_of(i) for i in lst if i.name == nm and not _spelt_alike(i.name, nm)
+                      and hash(i.name) != hash(nm)]
+            alias_only = n in ALIAS and sorted(got) == alike and bool(missed) and sorted(alike + missed) == want
             if alias_only:      # reported once per history (the failure list is capped)
                 seen = ctx.__dict__.setdefault('_alias_reported', set())
                 if case.get('idx') in seen or len(seen) >= 40:      # at most 40 reports of the known finding per run
                     continue
                 seen.add(case.get('idx'))
-            ctx.fail(where, {'what': f'find(name {n}) differs from the items of that name in the list',
+            ctx.fail(where, {'what': f'find(name {n}{how}) differs from the items of that name in the list',
                              'found': sorted(got), 'in_list_with_name': want, 'list': luids,
                              'explained_by_alias_hash_split': alias_only,
-                             'missed_alias_items': [u for u in want if u not in same_key] if alias_only else []}, site='find')
-        elif sorted(obs['find'][n]) != sorted(objs.tags([i for i in lst if i.name == nm])):
+                             'missed_alias_items': sorted(missed) if alias_only else []}, site='find')
+        elif sorted(obs[spelling][n]) != sorted(objs.tags([i for i in lst if i.name == nm])):
             # the same contents, but not the same OBJECTS as are in the sequence
-            ctx.fail(where, {'what': f'find(name {n}) returns objects that are equal to, but not the same as, the items in the '
-                                     'sequence', 'found_objects': sorted(obs['find'][n]),
+            ctx.fail(where, {'what': f'find(name {n}{how}) returns objects that are equal to, but not the same as, the items in '
+                                     'the sequence', 'found_objects': sorted(obs[spelling][n]),
                              'objects_in_list': sorted(objs.tags([i for i in lst if i.name == nm])), 'list': luids},
                      site='find-identity')
     # index / in agree with the list itself (== semantics of list.index)
@@ -671,8 +691,9 @@ def _compare(ctx, case, trace, ans):
         if len(a['obs']) != len(b['obs']):
             ctx.disagree('L0', {'case': case, 'step': k - 1}, len(a['obs']), len(b['obs']), 'number of sequences in the pool')
             return
-        for m, key in [(m, key) for m in range(len(a['obs'])) for key in ('list', 'find', 'index', 'in', 'nodes')]:
-            va, vb = a['obs'][m][key], b['obs'][m][key]
+        for m, key in [(m, key) for m in range(len(a['obs'])) for key in ('list', 'find', 'find_code', 'index', 'in', 'nodes')]:
+            # the model has one `find` per name (the dict key); the look-up spelled as pydicom Code must give the same
+            va, vb = a['obs'][m][key], b['obs'][m]['find' if key == 'find_code' else key]
             va = json.loads(json.dumps(va))
             # error kinds inside observations: compare ok-vs-error only
             def norm(v):
@@ -833,6 +854,6 @@ def attribute(failure, open_findings):
     # sequence at hand: `explained_by_alias_hash_split`, with the missed items named)
     if 'C14-alias-names-split-index' in ids and failure.get('site') == 'find' and isinstance(d, dict) and \
             d.get('explained_by_alias_hash_split') is True and d.get('missed_alias_items') and \
-            any(f'find(name {n})' in what for n in ALIAS):
+            any(f'find(name {n})' in what or f'find(name {n} spelled' in what for n in ALIAS):
         return 'C14-alias-names-split-index'
     return None
